@@ -232,6 +232,7 @@ ASAN_ENV = dict(
 def run_env(extra=None):
     e = dict(os.environ)
     e.update(ASAN_ENV)
+    e["VF_TOOLS_DIR"] = os.path.join(BUILD, "bin")
     if extra:
         for k, v in extra.items():
             if k in ("ASAN_OPTIONS",) and k in e:
@@ -280,7 +281,7 @@ def run_check(pid, tier, builder):
     os.makedirs(viol_dir, exist_ok=True)
 
     jobs = [j for j in P["jobs"] if tier in j.get("tiers", ("quick", "thorough"))]
-    harnesses = sorted(set(j["harness"] for j in jobs) | set(P.get("extra_harnesses", [])))
+    harnesses = sorted(set(j["harness"] for j in jobs if "harness" in j) | set(P.get("extra_harnesses", [])))
     builder.build(harnesses)
 
     # special (python-side) job kinds are delegated
@@ -292,6 +293,8 @@ def run_check(pid, tier, builder):
 
     for j in jobs:
         kind = j.get("kind", "rc")
+        if kind == "py":
+            continue
         exe = builder.exe(j["harness"])
         cases = j["cases"][0 if tier == "quick" else 1] if isinstance(j.get("cases"), (list, tuple)) else j.get("cases", 0)
         size = j["size"][0 if tier == "quick" else 1] if isinstance(j.get("size"), (list, tuple)) else j.get("size", 30)
